@@ -168,7 +168,10 @@ func newXMLReader(data []byte) (*xmlReader, error) {
 }
 
 func (dec *xmlReader) Next() error {
-	if ty := dec.Type(); ty != Type(0) && ty != TypeStructure {
+	// Skip what is left of the current element, whatever its type: an unconsumed
+	// nested structure must be skipped as a whole, or its end tag (or the end tag
+	// of one of its children) is taken for the end of the enclosing structure.
+	if dec.elem != nil {
 		if err := dec.r.Skip(); err != nil {
 			return err
 		}
@@ -360,7 +363,12 @@ func (dec *xmlReader) Struct(tag int, f func(reader) error) error {
 			return err
 		}
 	}
-	return dec.Next()
+	// The structure has been consumed up to and including its end tag
+	dec.elem = nil
+	if err := dec.Next(); err != nil && err != io.EOF {
+		return err
+	}
+	return nil
 }
 
 func (dec *xmlReader) TextString(tag int) (string, error) {
